@@ -140,7 +140,9 @@ func handlerCase(tw *trace.W, st *drv.Stats, id string, r *rng.R, consts *builtC
 	}
 	causeSame := bytes.Equal(stored, wantCause) && (stored == nil) == (wantCause == nil)
 	causeOK := stored == nil || (json.Valid(stored) && len(stored) <= 64<<10)
-	tw.Comment("chk kind=handler which=%s status=%d body=%d causesame=%d causeok=%d causelen=%d", which, rec.Code, b2i(bodyOK), b2i(causeSame), b2i(causeOK), len(stored))
+	// the cause as the runtime sent it (header path): valid JSON at all?
+	srcValid := !(which == "invoke" && hasCause && len(doc) > 0) || json.Valid(doc)
+	tw.Comment("chk kind=handler which=%s status=%d body=%d causesame=%d causeok=%d causelen=%d srcvalid=%d", which, rec.Code, b2i(bodyOK), b2i(causeSame), b2i(causeOK), len(stored), b2i(srcValid))
 	if stored != nil {
 		st.Inc("handler:cause-stored")
 	} else if hasCause {
